@@ -37,60 +37,88 @@ theorem query_clean_no_exec {p : Program} {s : St} (inv : Inv p s) {k : Key} {n 
         cases h; exact ⟨rfl, rfl⟩
 
 theorem applySets_ch {p : Program} :
-    ∀ (sets : List (Key × Val)) (s : St) (rs : List SetRes) (ch : List Key)
+    ∀ (ws : List Write) (s : St) (rs : List SetRes) (ch : List Key)
       (s1 : St) (rs1 : List SetRes) (ch1 : List Key),
-      applySets p sets s rs ch = .ok (s1, rs1, ch1) →
-      ∃ rs', rs1 = rs ++ rs' ∧ ((∀ r, r ∈ rs' → r ≠ SetRes.updated) → ch1 = ch) := by
-  intro sets
-  induction sets with
+      applySets p ws s rs ch = .ok (s1, rs1, ch1) →
+      ∃ rs', rs1 = rs ++ rs' ∧
+        ((∀ r, r ∈ rs' → r ≠ SetRes.updated ∧ r ≠ SetRes.refreshed) → ch1 = ch ∧ Write.refresh ∉ ws) := by
+  intro ws
+  induction ws with
   | nil =>
     intro s rs ch s1 rs1 ch1 e
     simp only [applySets] at e
-    cases e; exact ⟨[], by simp, fun _ => rfl⟩
+    cases e; exact ⟨[], by simp, fun _ => ⟨rfl, by simp⟩⟩
   | cons w rest ih =>
     intro s rs ch s1 rs1 ch1 e
-    obtain ⟨k, v⟩ := w
-    simp only [applySets] at e
-    cases hp : p[k]? with
-    | none => rw [hp] at e; cases e
-    | some d =>
-      rw [hp] at e
-      simp only at e
-      cases hi : d.isInput with
-      | false => rw [hi] at e; cases e
-      | true =>
-        rw [hi] at e
-        simp only [Bool.not_true, Bool.false_eq_true, if_false] at e
-        obtain ⟨rs', h1, h2⟩ := ih _ _ _ _ _ _ e
-        refine ⟨_ :: rs', h1.trans (List.append_assoc _ _ _), ?_⟩
-        intro hall
-        rw [h2 (fun r hr => hall r (List.mem_cons_of_mem _ hr))]
-        rw [if_neg (hall _ (List.mem_cons_self ..))]
+    cases w with
+    | world c v =>
+      simp only [applySets] at e
+      obtain ⟨rs', h1, h2⟩ := ih _ _ _ _ _ _ e
+      refine ⟨_ :: rs', h1.trans (List.append_assoc _ _ _), ?_⟩
+      intro hall
+      obtain ⟨a, b⟩ := h2 (fun r hr => hall r (List.mem_cons_of_mem _ hr))
+      exact ⟨a, by simp [b]⟩
+    | refresh =>
+      simp only [applySets] at e
+      obtain ⟨rs', h1, h2⟩ := ih _ _ _ _ _ _ e
+      refine ⟨_ :: rs', h1.trans (List.append_assoc _ _ _), ?_⟩
+      intro hall
+      exact absurd rfl (hall _ (List.mem_cons_self ..)).2
+    | set k v =>
+      simp only [applySets] at e
+      cases hp : p[k]? with
+      | none => rw [hp] at e; cases e
+      | some d =>
+        rw [hp] at e
+        simp only at e
+        split at e
+        · cases e
+        · obtain ⟨rs', h1, h2⟩ := ih _ _ _ _ _ _ e
+          refine ⟨_ :: rs', h1.trans (List.append_assoc _ _ _), ?_⟩
+          intro hall
+          obtain ⟨a, b⟩ := h2 (fun r hr => hall r (List.mem_cons_of_mem _ hr))
+          rw [a, if_neg (hall _ (List.mem_cons_self ..)).1]
+          exact ⟨rfl, by simp [b]⟩
 
-/-- after a session all of whose writes were `Unchanged`, a key that was verified before the
-    session is answered without executing anything -/
-theorem noop_session_no_exec {p : Program} {s : St} (inv : Inv p s) {sets : List (Key × Val)}
-    {rs : List SetRes} {s1 : St} (hs : session p sets s = .ok (rs, s1))
-    (hall : ∀ r, r ∈ rs → r = SetRes.unchanged) {k : Key} {n : Node} (hn : s.nodes k = some n)
+/-- after a session all of whose writes were `Unchanged` (or world writes without a refresh), a key
+    that was verified before the session is answered without executing anything -/
+theorem noop_session_no_exec {p : Program} {s : St} (inv : Inv p s) {ws : List Write}
+    {rs : List SetRes} {s1 : St} (hs : session p ws s = .ok (rs, s1))
+    (hall : ∀ r, r ∈ rs → r = SetRes.unchanged ∨ r = SetRes.world) {k : Key} {n : Node}
+    (hn : s.nodes k = some n)
     (hv : n.lastVerified = s.epoch) {fuel : Nat} {v : Val} {s2 : St}
     (hq : query p fuel k s1 = .ok (v, s2)) : s2.log = s.log ∧ v = n.value := by
-  obtain ⟨i1, _, _, _, hlog⟩ := session_spec inv hs
+  obtain ⟨i1, _, _, _, _, _, l, hlog, hlm⟩ := session_spec inv hs
   rw [session_eq] at hs
-  cases ha : applySets p sets { s with epoch := s.epoch + 1 } [] [] with
+  cases ha : applySets p ws (sessionStart ws s) [] [] with
   | error e => rw [ha] at hs; cases hs
   | ok r =>
     obtain ⟨s1', rs1, ch⟩ := r
     rw [ha] at hs
     simp only at hs
     cases hs
-    obtain ⟨rs', h1, h2⟩ := applySets_ch sets _ [] [] s1' rs ch ha
+    obtain ⟨rs', h1, h2⟩ := applySets_ch ws _ [] [] s1' rs ch ha
     simp only [List.nil_append] at h1
     subst h1
-    have hch : ch = [] := h2 (fun r hr => by rw [hall r hr]; decide)
+    obtain ⟨hch, hnr⟩ := h2 (fun r hr => by
+      cases hall r hr with
+      | inl h => rw [h]; exact ⟨by decide, by decide⟩
+      | inr h => rw [h]; exact ⟨by decide, by decide⟩)
     subst hch
-    obtain ⟨hep, hdirty, _, hnodes⟩ :=
-      applySets_rel (p := p) sets _ [] [] s1' rs [] ⟨rfl, rfl, rfl, fun _ => Or.inl rfl⟩ ha
-    simp only at hep hdirty hnodes
+    have hl : l = [] := by
+      cases l with
+      | nil => rfl
+      | cons x _ => exact absurd (hlm x (List.mem_cons_self ..)).1 hnr
+    subst hl
+    have hlog : (markDirty p s1' []).log = s.log := by simpa using hlog
+    obtain ⟨hep, hdirty, _, _, hnodes⟩ :=
+      applySets_rel (p := p) (s0 := sessionStart ws s) inv.kindsOK ws _ [] [] s1' rs [] (SetRel.refl p _) ha
+    have hdirty : s1'.dirty = s.dirty := hdirty
+    have hnodes : ∀ x, s1'.nodes x = s.nodes x ∨
+        ∃ n', s1'.nodes x = some n' ∧ n'.kind ≠ .normal ∧ n'.deps = [] ∧ n'.lastVerified = s.epoch + 1 ∧
+          (∃ d, p[x]? = some d ∧ d.kind = n'.kind) ∧
+          (n'.kind = .external → ∃ n, s.nodes x = some n ∧ n.kind = .external) ∧
+          (s.nodes x = none ∨ x ∈ ([] : List Key) ∨ ∃ n, s.nodes x = some n ∧ n.value = n'.value) := hnodes
     have hd : ∀ a b, (markDirty p s1' []).dirty a b = s.dirty a b := by
       intro a b
       simp [markDirty, affected_nil, hdirty]
@@ -104,7 +132,7 @@ theorem noop_session_no_exec {p : Program} {s : St} (inv : Inv p s) {sets : List
       obtain ⟨e1, e2⟩ := query_clean_no_exec i1 hk1 hcl hq
       exact ⟨by rw [e1, hlog], e2⟩
     | inr hnew =>
-      obtain ⟨n', hn', _, hdeps, _, _, h3⟩ := hnew
+      obtain ⟨n', hn', _, hdeps, _, _, _, h3⟩ := hnew
       have hk1 : (markDirty p s1' []).nodes k = some n' := hn'
       have hcl : ∀ d o, (d, o) ∈ n'.deps → (markDirty p s1' []).dirty k d = false := by
         intro d o hm; rw [hdeps] at hm; cases hm
@@ -156,6 +184,6 @@ theorem runRounds_spec {p : Program} (wf : WF p) :
         obtain ⟨o2, i2, f2⟩ := hrest
         simp only at o2 i2 f2
         refine ⟨?_, i2, f1.trans f2⟩
-        simp only [List.map_cons, h1, o2, cur_congr f1.inputs]
+        simp only [List.map_cons, h1, o2, f1.cur]
 
 end Qbice.Core
